@@ -6,6 +6,7 @@ import (
 	"fmt"
 	gofs "io/fs"
 	"os"
+	"path/filepath"
 	"strings"
 
 	"github.com/tonistiigi/fsutil"
@@ -154,6 +155,50 @@ func reentrantWalks(what string, fsv fsutil.FS, outer string, wantOuter []*types
 	return "", ""
 }
 
+// skipDirWalks: the callback answers SkipDir at entry i, for every i: a directory's contents are skipped, after a
+// non-directory the rest of its directory is skipped (the contract of filepath.WalkDir), everything else is reported.
+func skipDirWalks(what string, walk func(fn gofs.WalkDirFunc) error, want []*types.Stat) (string, string) {
+	for i := range want {
+		var exp []*types.Stat
+		at := want[i]
+		par := parentOf(at.Path)
+		for j, st := range want {
+			switch {
+			case j <= i:
+				exp = append(exp, st)
+			case at.IsDir() && strings.HasPrefix(st.Path, at.Path+"/"):
+			case !at.IsDir() && (par == "" && !strings.Contains(st.Path, "/") || par != "" && parentOf(st.Path) == par || par != "" && strings.HasPrefix(st.Path, par+"/")):
+			case !at.IsDir() && par == "":
+				// a non-directory at the top level: the rest of the top level (and what is below it) is skipped
+			default:
+				exp = append(exp, st)
+			}
+		}
+		// entries that are skipped are never looked at: the first member of a group that IS reported is the file
+		exp = rerootLinks(exp)
+		k := 0
+		got, err := collect(func(fn gofs.WalkDirFunc) error {
+			return walk(func(p string, e gofs.DirEntry, err error) error {
+				if r := fn(p, e, err); r != nil {
+					return r
+				}
+				k++
+				if k-1 == i {
+					return filepath.SkipDir
+				}
+				return nil
+			})
+		})
+		if err != nil {
+			return "walk-failed", fmt.Sprintf("%s with SkipDir answered at %q: %v", what, at.Path, err)
+		}
+		if kk, m := compareWalk(fmt.Sprintf("%s with SkipDir answered at %q", what, at.Path), got, exp); kk != "" {
+			return "skipdir-" + kk, m
+		}
+	}
+	return "", ""
+}
+
 // compareWalk checks a callback sequence against the expected stats.
 func compareWalk(what string, got []walked, want []*types.Stat) (string, string) {
 	for i := 1; i < len(got); i++ {
@@ -287,6 +332,11 @@ func judgeC09(c c09Case) (string, string) {
 		}
 		if k, m := compareWalk("FS.Walk after a consumer rewrote the stats of an earlier walk", got, want); k != "" {
 			return "history-" + k, m
+		}
+		if len(snap) <= 12 {
+			if k, m := skipDirWalks("FS.Walk", func(fn gofs.WalkDirFunc) error { return fs.Walk(ctx, "/", fn) }, want); k != "" {
+				return k, m
+			}
 		}
 		// two walks of one FS value that overlap: at every callback position; inner walk of the root, and for
 		// trees with hard links of every directory as well
@@ -423,6 +473,9 @@ func judgeC09(c c09Case) (string, string) {
 		if k, m := reentrantWalks("SubDirFS.Walk", sfs, "/", wantSub, "/", wantSub); k != "" {
 			return "subdir-" + k, m
 		}
+		if k, m := skipDirWalks("SubDirFS.Walk", func(fn gofs.WalkDirFunc) error { return sfs.Walk(ctx, "/", fn) }, wantSub); k != "" {
+			return "subdir-" + k, m
+		}
 	}
 	return "", ""
 }
@@ -530,6 +583,13 @@ func c09Cases(tier string) []c09Case {
 			out = append(out, c09Case{Tree: tk}, c09Case{Tree: tk, Sub: []string{"s1"}})
 		}
 	}
+	// names that begin with dots without being "." or ".."
+	dots := fsmodel.Tree{{Path: "..data", Kind: fsmodel.Dir, Perm: 0755, Mtime: fsmodel.T0}, {Path: "..data/x", Kind: fsmodel.File, Perm: 0644, Mtime: fsmodel.T0 + 1, Data: []byte("x")},
+		{Path: "...", Kind: fsmodel.File, Perm: 0644, Mtime: fsmodel.T0 + 2, Data: []byte("d")}, {Path: ".hidden", Kind: fsmodel.Dir, Perm: 0755, Mtime: fsmodel.T0 + 3},
+		{Path: ".hidden/..y", Kind: fsmodel.File, Perm: 0644, Mtime: fsmodel.T0 + 4, Data: []byte("y")}, {Path: "a", Kind: fsmodel.Dir, Perm: 0755, Mtime: fsmodel.T0 + 5},
+		{Path: "a/..b", Kind: fsmodel.Symlink, Perm: 0777, Mtime: fsmodel.T0 + 6, Link: "../..data"}}
+	dots.Sort()
+	out = append(out, c09Case{Tree: dots}, c09Case{Tree: dots, Sub: []string{"s1"}}, c09Case{Tree: dots, Sub: []string{"..s", ".t"}})
 	// long names, deep chain, absolute symlinks inside sub-roots
 	long := strings.Repeat("L", 255)
 	deep := fsmodel.Tree{}
